@@ -155,7 +155,7 @@ class ExprMixin:
                                    ob.val if ob.val is not None else oa.val)
             return Opt(z3.If(c, zbool(oa.isnone), zbool(ob.isnone)), inner)
         if str_kind(a) and str_kind(a) == str_kind(b):
-            return SymStr(str_kind(a), z3.If(c, to_zstr(a), to_zstr(b)))
+            return self.s_ite(c, a, b)
         if is_bool_like(a) and is_bool_like(b):
             return z3.If(c, zbool(a), zbool(b))
         if is_int_like(a) and is_int_like(b):
@@ -187,7 +187,7 @@ class ExprMixin:
         if isinstance(v, (bytes, str, tuple)):
             return len(v) > 0
         if isinstance(v, SymStr):
-            return z3.Length(v.s) > 0
+            return self.s_len(v) > 0
         if isinstance(v, Opt):
             return zand(znot(v.isnone), self.truth(v.val) if v.val is not None else False)
         if isinstance(v, EnumV):
@@ -234,6 +234,8 @@ class ExprMixin:
             if is_and and not tb:
                 return v if not isinstance(t, z3.BoolRef) else False
             if (not is_and) and tb:
+                if isinstance(v, Opt):
+                    return v.val          # truthy => not None
                 return v if not isinstance(t, z3.BoolRef) else (v if not is_bool_like(v) else True)
         return v
 
@@ -296,7 +298,7 @@ class ExprMixin:
                     self.raise_builtin('TypeError', node=node)
                 if not isinstance(a, SymStr) and not isinstance(b, SymStr):
                     return a + b
-                return SymStr(ka, z3.Concat(to_zstr(a), to_zstr(b)))
+                return self.s_concat(a, b)
             if isinstance(a, tuple) and isinstance(b, tuple):
                 return a + b
             if isinstance(a, Ref) and isinstance(b, Ref):
@@ -379,7 +381,7 @@ class ExprMixin:
                 return False
             if not isinstance(a, SymStr) and not isinstance(b, SymStr):
                 return a == b
-            return to_zstr(a) == to_zstr(b)
+            return self.s_eq(a, b)
         if (is_int_like(a) or is_bool_like(a)) and (is_int_like(b) or is_bool_like(b)):
             if is_bool_like(a) and is_bool_like(b):
                 return self._eqv(a, b)
